@@ -109,6 +109,16 @@ class Program:
         self._load()
         self._link()
 
+    def data_text(self, rel: str) -> str | None:
+        """Text of a non-Python data file under the source root (in-memory override first); None when absent."""
+        if rel in self._overrides:
+            return self._overrides[rel]
+        path = os.path.join(self.src_root, rel)
+        if not os.path.exists(path):
+            return None
+        with open(path, encoding="utf-8") as f:
+            return f.read()
+
     # ------------------------------------------------------------------ loading
     def _load(self):
         root = os.path.join(self.src_root, self.package)
